@@ -1,0 +1,97 @@
+package keygen
+
+import (
+	"errors"
+	"fmt"
+
+	"github.com/fxamacker/cbor/v2"
+	"github.com/taurusgroup/multi-party-sig/pkg/math/curve"
+)
+
+// Validate checks the rules that every usable Config satisfies: a non-zero private share, a
+// public key and verification shares that are not the identity, a verification share for this
+// party, and a threshold that fits the number of parties.
+func (r *Config) Validate() error {
+	if r == nil || r.PrivateShare == nil || r.PublicKey == nil || r.VerificationShares == nil {
+		return errors.New("frost config: missing fields")
+	}
+	if r.PrivateShare.IsZero() {
+		return errors.New("frost config: private share is zero")
+	}
+	if r.PublicKey.IsIdentity() {
+		return errors.New("frost config: public key is the identity")
+	}
+	n := len(r.VerificationShares.Points)
+	if r.Threshold < 0 || r.Threshold > n-1 {
+		return fmt.Errorf("frost config: threshold %d is invalid for %d parties", r.Threshold, n)
+	}
+	if _, ok := r.VerificationShares.Points[r.ID]; !ok {
+		return errors.New("frost config: no verification share for this party")
+	}
+	for id, share := range r.VerificationShares.Points {
+		if share == nil || share.IsIdentity() {
+			return fmt.Errorf("frost config: verification share of party %s is the identity", id)
+		}
+	}
+	return nil
+}
+
+// UnmarshalCBOR implements cbor.Unmarshaler. The receiver must have been created with
+// EmptyConfig. Malformed or invalid data yields an error, never a panic or an invalid Config.
+func (r *Config) UnmarshalCBOR(data []byte) (err error) {
+	defer func() {
+		if p := recover(); p != nil {
+			err = fmt.Errorf("frost config: malformed data: %v", p)
+		}
+	}()
+	// plain has the fields of Config, but not its methods: the default decoding is used.
+	type plain Config
+	if err := cbor.Unmarshal(data, (*plain)(r)); err != nil {
+		return err
+	}
+	return r.Validate()
+}
+
+// Validate checks the rules that every usable TaprootConfig satisfies.
+func (r *TaprootConfig) Validate() error {
+	if r == nil || r.PrivateShare == nil {
+		return errors.New("frost taproot config: missing fields")
+	}
+	if r.PrivateShare.IsZero() {
+		return errors.New("frost taproot config: private share is zero")
+	}
+	if len(r.PublicKey) != 32 {
+		return fmt.Errorf("frost taproot config: public key has %d bytes", len(r.PublicKey))
+	}
+	if _, err := (curve.Secp256k1{}).LiftX(r.PublicKey); err != nil {
+		return fmt.Errorf("frost taproot config: public key: %w", err)
+	}
+	n := len(r.VerificationShares)
+	if r.Threshold < 0 || r.Threshold > n-1 {
+		return fmt.Errorf("frost taproot config: threshold %d is invalid for %d parties", r.Threshold, n)
+	}
+	if _, ok := r.VerificationShares[r.ID]; !ok {
+		return errors.New("frost taproot config: no verification share for this party")
+	}
+	for id, share := range r.VerificationShares {
+		if share == nil || share.IsIdentity() {
+			return fmt.Errorf("frost taproot config: verification share of party %s is nil or the identity", id)
+		}
+	}
+	return nil
+}
+
+// UnmarshalCBOR implements cbor.Unmarshaler. Malformed or invalid data yields an error, never
+// a panic or an invalid TaprootConfig.
+func (r *TaprootConfig) UnmarshalCBOR(data []byte) (err error) {
+	defer func() {
+		if p := recover(); p != nil {
+			err = fmt.Errorf("frost taproot config: malformed data: %v", p)
+		}
+	}()
+	type plain TaprootConfig
+	if err := cbor.Unmarshal(data, (*plain)(r)); err != nil {
+		return err
+	}
+	return r.Validate()
+}
